@@ -45,5 +45,16 @@ PROPS["C17"] = {
     "assumptions": ["typed message values are canonical (fields the syntax does not carry are zero), as produced by the decoders"],
 }
 
+PROPS["C09"] = {
+    "level": "proof",
+    "technique": "Lean 4 proof (loop invariants for the run-length walks, binary-search invariants over the cached cumulative arrays) + exhaustive-per-table correspondence",
+    "level_text": "Model lean/Mp4ff/Model/SampleTables.lean transcribes every query loop for loop (incl. the three binary searches, the cached FirstSampleNr/EndSampleNr and uint32/uint64 arithmetic) next to the naive per-sample expansion; theorems in Props/C09.lean; tie = every query on every sample number / interval / chunk / time of randomly generated consistent tables, real boxes built through the encoders+decoders.",
+    "level_note": "Trusted: Lean kernel, allowed axioms, hand transcription validated by correspondence. CopySampleData is covered under C08.",
+    "trusted": ["Model/SampleTables.lean hand transcription of mp4/stts.go ctts.go stsc.go stsz.go stco.go co64.go stss.go sdtp.go trak.go"],
+    "unmodelled": ["File.CopySampleData (C08)", "GetTimeCode (time.Duration convenience)"],
+    "partial": [],
+    "assumptions": ["tables are consistent (ISO 14496-12): first_chunk strictly increasing from 1, samples_per_chunk > 0, stss strictly increasing, totals agree, sums below 2^32 / 2^64"],
+}
+
 # reasons for properties that are not claimed (yet)
 NOT_CLAIMED = {}
